@@ -22,6 +22,9 @@ pub mod shims {
     pub mod fmt {
 //@include frag/fmt_shim.tpl
     }
+    pub mod net {
+//@include frag/net_shim.tpl
+    }
 }
 pub mod common {
     pub mod bits {
@@ -58,6 +61,7 @@ pub mod tcp {
 //@include frag/tcp_frame.tpl
 //@include frag/tcp_frame_writer.tpl
     }
+//@include-if client frag/tcp_client_mod.tpl
 }
 pub mod serial {
     pub mod frame {
@@ -68,6 +72,7 @@ pub mod serial {
 pub mod channel {
 //@include frag/channel.tpl
 }
+//@include-if client frag/conn_shims.tpl
 pub mod client {
     pub mod requests {
         pub mod write_multiple {
